@@ -35,7 +35,9 @@ Inductive rop :=
 | RDrop                         (* setuid/setgid nobody *)
 | RNone.                        (* thread creation / exit / probe only: reconciliation and comparison *)
 
-Record rstep := { r_op : rop; r_threads : list obs_thread }.
+(** [r_pre]: tasks observed immediately BEFORE the operation (the thread an ordinary goroutine found itself
+    on when it was about to call: it may have been created after the previous step) *)
+Record rstep := { r_op : rop; r_pre : list obs_thread; r_threads : list obs_thread }.
 
 (** a difference: step number, thread id (0: the operation itself), kind, model value, observed value.
     kinds: 1 result of LoadFilter (1 = nil)   2 seccomp calls made (count)   3 call thread  4 call op
@@ -142,7 +144,7 @@ Definition nnp_variants (st:kstate) : list thread := map (fun t => with_nnp t tr
 
 Definition replay_step (s:rstate) (x:rstep) : rstate :=
   let step := rs_step s in
-  let st := rs_k s in
+  let '(st, d0) := add_new step (nnp_variants (rs_k s)) (r_pre x) (rs_k s) [] in
   let '(st1, fids1, d1) :=
     match r_op x with
     | RLoad idx tid pinned sched f isnil calls =>
@@ -170,7 +172,7 @@ Definition replay_step (s:rstate) (x:rstep) : rstate :=
   let cands := ks_threads st ++ nnp_variants st ++ nnp_variants st1 in
   let '(st2, d2) := add_new step cands (r_threads x) (remove_gone (r_threads x) st1) [] in
   let d3 := flat_map (cmp_thread step fids1 st2) (r_threads x) in
-  {| rs_k := st2; rs_fids := fids1; rs_step := step + 1; rs_diffs := rs_diffs s ++ d1 ++ d2 ++ d3 |}.
+  {| rs_k := st2; rs_fids := fids1; rs_step := step + 1; rs_diffs := rs_diffs s ++ d0 ++ d1 ++ d2 ++ d3 |}.
 
 (** the initial tasks: all without filters, privileged or not *)
 Definition initial (priv:bool) (obs:list obs_thread) : kstate :=
